@@ -81,7 +81,9 @@ fn run_system(out: &mut Out, spec: &SysSpec, bound: usize, sample: bool) {
             let b = m2.checker().visitor(rec);
             let (uniq, d_full, d_zero) = if dfs { summarize(b.spawn_dfs().join()) } else { summarize(b.spawn_bfs().join()) };
             let name = if dfs { "dfs" } else { "bfs" };
-            let visited: BTreeSet<String> = acc().iter().map(|s| state_sx(s, &tstate_sx)).collect();
+            let visited_list: Vec<String> = acc().iter().map(|s| state_sx(s, &tstate_sx)).collect();
+            out.o(&format!("o-reach {} {} ({})", sx, bound, visited_list.join(" ")));
+            let visited: BTreeSet<String> = visited_list.iter().cloned().collect();
             if visited != mine {
                 let missing: Vec<&String> = mine.difference(&visited).take(2).collect();
                 let extra: Vec<&String> = visited.difference(&mine).take(2).collect();
@@ -104,7 +106,7 @@ fn main() {
     let mut out = Out::new();
     let mut r = Rng::new(seed());
     let th = thorough();
-    let n_sys = arg_u64("--systems", if th { 4000 } else { 330 }) as usize;
+    let n_sys = arg_u64("--systems", if th { 2800 } else { 280 }) as usize;
     let bound = arg_u64("--bound", if th { 400 } else { 250 }) as usize;
     for i in 0..n_sys {
         let mut rr = r.fork();
